@@ -34,6 +34,7 @@ func init() {
 			{Name: "skip-before-push", File: "extractor/filesystem/filesystem.go", Old: "		wc.dirsVisited++\n		if wc.useGitignore {", New: "		wc.dirsVisited++\n		if wc.shouldSkipDir(path) {\n			return fs.SkipDir\n		}\n		if wc.useGitignore {", Rule: "D5-balanced", Site: "push"},
 			{Name: "explicit-dir-no-parent-gitignore", File: "extractor/filesystem/filesystem.go", Old: "					wc.gitignores = gitignores\n", New: "					_ = gitignores\n", Rule: "D8-same", Site: "parent-gitignores"},
 		},
+		Neutral: handleFileNeutral,
 	})
 }
 
